@@ -187,6 +187,42 @@ def _keep_decorator(d):
     return True
 
 
+_MODULE_NS = {}     # module name -> the one globals dict shared by all instrumented functions of that module
+NS_OVERRIDES = {}   # (module name, global name) -> value   (environment stubs for module globals)
+
+
+def module_ns(f):
+    from . import rt
+    name = f.__module__
+    ns = _MODULE_NS.get(name)
+    if ns is None:
+        ns = dict(f.__globals__)
+        ns['__sx'] = rt
+        for (m, k), v in NS_OVERRIDES.items():
+            if m == name:
+                ns[k] = v
+        _MODULE_NS[name] = ns
+    return ns
+
+
+def set_global(modname, name, value):
+    NS_OVERRIDES[(modname, name)] = value
+    ns = _MODULE_NS.get(modname)
+    if ns is not None:
+        ns[name] = value
+
+
+def unset_global(modname, name):
+    NS_OVERRIDES.pop((modname, name), None)
+    ns = _MODULE_NS.get(modname)
+    if ns is not None:
+        mod = sys.modules.get(modname)
+        if mod is not None and hasattr(mod, name):
+            ns[name] = getattr(mod, name)
+        else:
+            ns.pop(name, None)
+
+
 _cache = {}
 INSTRUMENTED_LOG = {}   # qualname -> sha1 of the source text instrumented on this run
 FAILED = {}
@@ -245,28 +281,24 @@ def instrumented(f):
     firstarg = fd.args.args[0].arg if fd.args.args else (fd.args.posonlyargs[0].arg if fd.args.posonlyargs else None)
     tree = T(firstarg).visit(tree)
     freevars = tuple(v for v in co.co_freevars if v != '__class__')
-    if freevars:
-        # rebuild the closure: def __sx_factory(free...): def f(...): ...; return f
-        fac = ast.FunctionDef(name='__sx_factory',
-                              args=ast.arguments(posonlyargs=[], args=[ast.arg(v) for v in freevars], kwonlyargs=[],
-                                                 kw_defaults=[], defaults=[]),
-                              body=[tree.body[0], ast.Return(ast.Name(f.__name__, ast.Load()))], decorator_list=[],
-                              type_params=[])
-        tree = ast.Module([fac], [])
+    # def __sx_factory(__sx_cls, <free variables>): def f(...): ...; return f      (rebuilds the closure; __sx_cls is
+    # the defining class for the rewritten zero-argument super())
+    fac = ast.FunctionDef(name='__sx_factory',
+                          args=ast.arguments(posonlyargs=[], args=[ast.arg('__sx_cls')] + [ast.arg(v) for v in freevars], kwonlyargs=[],
+                                             kw_defaults=[], defaults=[]),
+                          body=[tree.body[0], ast.Return(ast.Name(f.__name__, ast.Load()))], decorator_list=[],
+                          type_params=[])
+    tree = ast.Module([fac], [])
     ast.fix_missing_locations(tree)
-    ns = dict(f.__globals__)
-    ns['__sx'] = rt
-    ns['__sx_cls'] = defining_class(f)
-    exec(compile(tree, f"<sx:{f.__module__}.{f.__qualname__}>", 'exec'), ns)
-    if freevars:
-        try:
-            cells = [c.cell_contents for v, c in zip(co.co_freevars, f.__closure__) if v != '__class__']
-        except ValueError:
-            FAILED[f] = "empty cell"
-            return None
-        g = ns['__sx_factory'](*cells)
-    else:
-        g = ns[f.__name__]
+    ns = module_ns(f)
+    local = {}
+    exec(compile(tree, f"<sx:{f.__module__}.{f.__qualname__}>", 'exec'), ns, local)
+    try:
+        cells = [c.cell_contents for v, c in zip(co.co_freevars, f.__closure__ or ()) if v != '__class__']
+    except ValueError:
+        FAILED[f] = "empty cell"
+        return None
+    g = local['__sx_factory'](defining_class(f), *cells)
     if f.__defaults__:
         g.__defaults__ = f.__defaults__
     if f.__kwdefaults__:
@@ -302,6 +334,7 @@ def _lambda_source(f):
 
 
 def reset():
+    _MODULE_NS.clear()
     _cache.clear()
     INSTRUMENTED_LOG.clear()
     FAILED.clear()
